@@ -49,6 +49,8 @@ import _thread
 import impl  # noqa: F401  (sets sys.path to VERIF_REPO, silences logging)
 import jsonrpclib.threadpool as tp
 
+import hostile
+
 RET_OBJ = 7       # model identity of the (per-run) object returned by the task
 EXC_OBJ = 9       # model identity of the exception raised by the task
 EXTRA_BASE = 100  # a per-registration extra of registration r is EXTRA_BASE + r
@@ -58,6 +60,9 @@ SINGLETONS = ((0, 50), ("", 51), ((), 52), (False, 53))
 # outcome of the task -> how the returned / raised object is made
 OUTCOMES_RET = {"ret": "obj", "retnone": "none", "ret0": "zero", "retempty": "str", "retlist": "list", "retfalse": "false"}
 OUTCOMES_RAISE = {"raise": "plain", "raisenoargs": "noargs", "raisefalsy": "bool", "raiselen": "len", "raiseos": "os"}
+# ... and HOSTILE exception objects (harness/hostile.py): outcome "raiseH_<kind>", e.g. raiseH_strraise
+OUTCOMES_RAISE.update({"raiseH_" + k: "H_" + k for k in hostile.KINDS})
+HOSTILE_OUTCOMES = tuple("raiseH_" + k for k in hostile.KINDS)
 # `extra` of a registration: per-registration truthy tuple, None, 0, "", (), False
 EXTRA_SPECS = ("t", "N", "0", "s", "u", "F")
 # shape of the registered callable: plain function, functools.partial, callable instance (no __name__),
@@ -464,7 +469,7 @@ def _on_call(code, offset, callee, arg0):
             return None
         line = sys._getframe(1).f_lineno
     except Exception as ex:  # noqa: BLE001  a harness bug must not be swallowed by the code under test
-        run.errors.append("CALL hook: %r" % (ex,))
+        run.errors.append("CALL hook: %s" % hostile.describe(ex))
         return None
     me.pause(("line", code.co_name, line, label))
     if label is INVOKE:
@@ -621,14 +626,25 @@ def norm_reg(entry):
     return kind, x, form
 
 
+def reg_hostile(entry):
+    """Optional fourth field of a registration of kind "x": the kind of HOSTILE exception object the callback raises
+    (harness/hostile.py); None: a plain CallbackError."""
+    entry = tuple(entry)
+    h = entry[3] if len(entry) > 3 else None
+    if h is not None and (h not in hostile.KINDS or entry[0] != "x"):
+        raise ValueError("bad registration %r" % (entry,))
+    return h
+
+
 class Run(object):
     """
     One execution of a program under a schedule.
 
     program = {"outcome": a key of OUTCOMES_RET / OUTCOMES_RAISE, or None (no executor),
-               "regs": [[(kind, extra, form), ...], ...]   one list of set_callback calls per registrar thread,
+               "regs": [[(kind, extra, form[, hostile]), ...], ...]   one list of set_callback calls per registrar thread,
                         kind in "r" (returns) "x" (raises) "a" (wrong arity) "n" (method None),
-                        extra in EXTRA_SPECS, form in FORMS
+                        extra in EXTRA_SPECS, form in FORMS, hostile (kind "x" only) in hostile.KINDS: the callback
+                        raises a hostile exception object instead of a plain CallbackError
                "obs":  [[call, ...], ...]    call in "d" (done()) "t" (result(0.01)) "z" (result(0)) "Z" (result(0.0))
                                              "b" (result(None))}
     """
@@ -653,6 +669,7 @@ class Run(object):
         self.cb_errors = {}
         self.extras = {}
         self.regs = {}         # rid -> (kind, extra spec, form)
+        self.cb_hostile = {}   # rid -> kind of hostile exception object the callback raises (None: CallbackError)
         self.deadlock = False
         self.errors = []
         rid = 0
@@ -661,6 +678,7 @@ class Run(object):
             ids = []
             for ent in calls:
                 self.regs[rid] = norm_reg(ent)
+                self.cb_hostile[rid] = reg_hostile(ent)
                 ids.append(rid)
                 rid += 1
             self.reg_ids.append(ids)
@@ -682,7 +700,7 @@ class Run(object):
                    "false": lambda: False}[OUTCOMES_RET[outcome]]()
         elif outcome in OUTCOMES_RAISE:
             how = OUTCOMES_RAISE[outcome]
-            exc = (TaskError("task failed") if how == "plain" else NoArgsTaskError() if how == "noargs"
+            exc = hostile.make(how[2:], "task") if how.startswith("H_") else (TaskError("task failed") if how == "plain" else NoArgsTaskError() if how == "noargs"
                    else FalsyTaskError("falsy") if how == "bool" else EmptyTaskError("empty") if how == "len"
                    else OSError("task failed with an OSError"))
         elif outcome is not None:
@@ -732,7 +750,9 @@ class Run(object):
             run.calls.append((rid, run.tok(result), run.tok(exception), run.tok(extra), run.cur.cur_call, run.now(),
                               run.cur.name))
             if kind == "x":
-                err = run.cb_errors[rid] = CallbackError("callback %d fails" % rid)
+                h = run.cb_hostile.get(rid)
+                err = run.cb_errors[rid] = (hostile.make(h, "callback-%d" % rid) if h is not None
+                                            else CallbackError("callback %d fails" % rid))
                 raise err
 
         if kind == "a":
@@ -940,7 +960,7 @@ class Run(object):
                 st.proj = self.projection()
                 prev = t.name
                 if t.error is not None:
-                    self.errors.append("thread %s: %r" % (t.name, t.error))
+                    self.errors.append("thread %s: %s" % (t.name, hostile.describe(t.error)))
             self.final = None
             if not self.deadlock:
                 self.cur = None
@@ -952,7 +972,7 @@ class Run(object):
                         fin_res = "e" + self.tok(ex) if ex is self.exc_obj else type(ex).__name__
                     self.final = (fin_done, fin_res)
                 except Exception as ex:  # noqa: BLE001
-                    self.final = ("error", repr(ex))
+                    self.final = ("error", hostile.describe(ex))
         finally:
             tp.threading = saved
             ctrl.abort()
